@@ -3232,6 +3232,13 @@ class RegexMatch(Match):
             return r
         return r
 
+    def _repeat_count(self, token: lark.Token):
+        # (the number terminal admits a sign)
+        count = int(token.value)
+        if count < 0:
+            raise IllegalParseTree("Repetition count is negative", token)
+        return count
+
     def _interpret_parse_tree(self, regex_tree: lark.Tree):
         tree_data = regex_tree.data
         if tree_data.startswith("binary_"):
@@ -3267,7 +3274,7 @@ class RegexMatch(Match):
             return val
         elif tree_data == "regex_exact_repeat":
             repeated_match = self._interpret_parse_tree(regex_tree.children[0])
-            repeat_times   = int(regex_tree.children[1].value)
+            repeat_times   = self._repeat_count(regex_tree.children[1])
             return ProgramData.imbue(
                 RegexSequence(itertools.repeat(repeated_match, repeat_times)),
                 DTAG.SOURCE_LINE, regex_tree.children[1].line,
@@ -3275,7 +3282,7 @@ class RegexMatch(Match):
             )
         elif tree_data == "regex_at_least_repeat":
             repeated_match = self._interpret_parse_tree(regex_tree.children[0])
-            repeat_times   = int(regex_tree.children[1].value)
+            repeat_times   = self._repeat_count(regex_tree.children[1])
             return ProgramData.imbue(
                 RegexSequence([repeated_match for x in range(repeat_times)] + [RegexKleene(repeated_match)]),
                 DTAG.SOURCE_LINE, regex_tree.children[1].line,
@@ -3283,8 +3290,10 @@ class RegexMatch(Match):
             )
         elif tree_data == "regex_range_repeat":
             repeated_match = self._interpret_parse_tree(regex_tree.children[0])
-            repeat_times_min = int(regex_tree.children[1].value)
-            repeat_times_max = int(regex_tree.children[2].value)
+            repeat_times_min = self._repeat_count(regex_tree.children[1])
+            repeat_times_max = self._repeat_count(regex_tree.children[2])
+            if repeat_times_max < repeat_times_min:
+                raise IllegalParseTree("Repetition range is reversed", regex_tree.children[2])
             return ProgramData.imbue(RegexSequence(itertools.chain(
                 itertools.repeat(repeated_match, repeat_times_min),
                 itertools.repeat(RegexOptional(repeated_match), repeat_times_max - repeat_times_min)
@@ -3348,6 +3357,8 @@ class RegexMatch(Match):
                 elif child.data == "regex_set_range":
                     start = list(self._convert_raw_regex_unimportant(child.children[0]).chars)[0]
                     end = list(self._convert_raw_regex_unimportant(child.children[1]).chars)[0]
+                    if ord(end) < ord(start):
+                        raise IllegalParseTree("Character range is reversed", child.children[1])
                     new_set = RegexCharClass(chr(x) for x in range(ord(start), ord(end)+1))
                 else:
                     new_set = self._convert_raw_regex_char_class(child)
@@ -3537,6 +3548,8 @@ class BinaryRegexMatch(RegexMatch):
                 elif child.data == "binary_regex_set_range":
                     start = list(self._convert_raw_regex_unimportant(child.children[0]).chars)[0]
                     end = list(self._convert_raw_regex_unimportant(child.children[1]).chars)[0]
+                    if ord(end) < ord(start):
+                        raise IllegalParseTree("Character range is reversed", child.children[1])
                     new_set = RegexCharClass(chr(x) for x in range(ord(start), ord(end)+1))
                 incoming_set = incoming_set.union(new_set)
             if inverted:
